@@ -226,6 +226,7 @@ func TestVerifC09(t *testing.T) {
 		c09Scenario("pipeline-tcp-L2-q2-c3", tOpt{Kind: "pipeline-tcp", Callers: 3, MaxCq: 2, LazyQueue: 2, Srv: all}, pp(2, 3), true),
 		c09Scenario("pipeline-udp-L1-q1-c2", tOpt{Kind: "pipeline-udp", Callers: 2, MaxCq: 1, LazyQueue: 1, Srv: all}, pp(2, 3), true),
 		c09Scenario("pipeline-tcp-L2-q2-c3-cancel", tOpt{Kind: "pipeline-tcp", Callers: 3, Seq: 2, MaxCq: 2, LazyQueue: 2, Srv: all, CtxMode: []int{2, 0, 0}}, pp(1, 2), true),
+		c09Scenario("pipeline-tcp-L2-c2-dialfail-closer", tOpt{Kind: "pipeline-tcp", Callers: 2, MaxCq: 2, LazyQueue: 2, Srv: all, DialMenu: []int{0, 1}, Closer: true}, pp(1, 2), false),
 		c09Scenario("reuse-c2-seq2-cancel", tOpt{Kind: "reuse", Callers: 2, Seq: 2, Srv: srvOpt{Reorder: true}, CtxMode: []int{2, 0}}, pp(1, 2), false),
 		c09Scenario("reuse-c2-seq2", tOpt{Kind: "reuse", Callers: 2, Seq: 2, Srv: all}, pp(2, 3), true),
 	}
